@@ -21,7 +21,8 @@ RULE = ("histories of 4-22 commands issued on a real cashews.backends.redis.Redi
         "exists, expire, get_expire, incr with and without TTL, set_lock, unlock (owner / foreign token), scan, delete_match, get_match ('*' patterns), "
         "set_add (with / without TTL), set_remove, set_pop, get_bits, incr_bits (sizes 1-4, saturating), slice_incr, clear, get_keys_count, ping; virtual "
         "clock advances of 0-3 s in 1/8 s steps between commands (so TTLs lapse); the server is switched down / up at random positions (every "
-        "position of short histories in the thorough tier); after every command the stand-in's whole keyspace is dumped. Second stream: every decorator "
+        "position of short histories in the thorough tier); after every command the stand-in's whole keyspace is dumped. A tenth more histories drive one sliding window with one period at non-decreasing "
+        "instants whose gaps are 0, 1, period-1, period, period+1 (earlier hits exactly on the window's edges). Second stream: every decorator "
         "(cache, early, soft, hit, failover, locked, thunder-protected, rate_limit, slice_rate_limit, circuit_breaker, bloom, iterator) stacked on the backend "
         "with the server down from the start or from the k-th call. non-trivial: the history contains a command while the server is down AND a TTL lapse "
         "or a rejected conditional write")
@@ -83,12 +84,25 @@ def _rand_case(rng, maxlen=22):
     return {"kind": "history", "sup": rng.random() < 0.7, "hist": hist}
 
 
+def _window_case(rng):
+    """a sliding window driven the way slice_rate_limit drives it: one period, non-decreasing instants whose gaps hit the window edges exactly"""
+    period = rng.choice([2, 5, 10])
+    t = period + rng.randint(0, 3)
+    maxv = rng.choice([2, 3, 4, 100])
+    hist = []
+    for _ in range(rng.randint(3, 10)):
+        hist.append([0, False, ["slice_incr", "za", t - period, t, maxv, rng.choice([0, 0, 2.5])]])
+        t += rng.choice([0, 1, 1, period - 1, period, period, period + 1])
+        if rng.random() < 0.15: hist.append([rng.choice([0, 1]), False, _rand_cmd(rng)])
+    return {"kind": "history", "sup": True, "hist": hist}
+
+
 DECORATORS = ["cache", "cache_lock", "early", "soft", "hit", "failover", "locked", "rate_limit", "slice_rate_limit", "circuit_breaker", "bloom", "dual_bloom", "iterator"]
 
 
 def gen_cases(rng, tier):
     n = 500 if tier == "quick" else 6000
-    cases = [_rand_case(rng) for _ in range(n)]
+    cases = [_rand_case(rng) for _ in range(n)] + [_window_case(rng) for _ in range(n // 10)]
     for d in DECORATORS:
         for down_from in (0, 1, 2):
             cases.append({"kind": "decor", "decorator": d, "down_from": down_from, "calls": 4})
